@@ -169,6 +169,7 @@ func (e *Engine) header(st *symtab) string {
 	}
 	// embedded struct objects: emb$T$f(x) is the object stored in field f of x: non-nil, injective,
 	// as old as its container
+	embK := 0
 	for _, n := range sortedKeys(st.ufs) {
 		if strings.HasPrefix(n, "emb$") {
 			id := smtIdent(n)
@@ -177,6 +178,12 @@ func (e *Engine) header(st *symtab) string {
 			fmt.Fprintf(&sb, "(assert (forall ((x Int)) (! (and (= (%s (%s x)) x) (=> (> x 0) (> (%s x) 0))) :pattern ((%s x)))))\n", inv, id, id, id)
 			if _, ok := st.vars["top0"]; ok {
 				fmt.Fprintf(&sb, "(assert (forall ((x Int)) (! (= (> (%s x) top0) (> x top0)) :pattern ((%s x)))))\n", id, id)
+			}
+			// embedded structs reached through different fields are different objects, and none of them is
+			// an object allocated on its own (embtag is 0 for those)
+			if st.ufs["embtag"] {
+				embK++
+				fmt.Fprintf(&sb, "(assert (forall ((x Int)) (! (= (embtag (%s x)) %d) :pattern ((%s x)))))\n", id, embK, id)
 			}
 		}
 	}
